@@ -178,42 +178,29 @@ func generate(prop, tier string, seed uint64, w *bufio.Writer) {
 		fmt.Fprintf(os.Stderr, "unknown property %s\n", prop)
 		os.Exit(2)
 	}
-	// report blocks of 64 KiB and more, for the properties that encode, re-encode or decode XR packets. The model takes
-	// 25 s to 2 min per such packet (its byte-list functions are quadratic at this size): the quick tier runs one
-	// (packet receipt times, the cheapest kind) for the two properties about XR framing and re-encoding, the thorough
-	// tier all four kinds for every property that handles XR packets.
-	kinds := 1
-	if tier == "thorough" {
-		kinds = 4
-	}
+	// report blocks of 64 KiB and more (block length field >= 16383), for the properties that encode, re-encode or decode
+	// XR packets: all four block kinds, as values to encode, as datagrams written byte by byte (not with the library's
+	// encoder, whose output would carry whatever the encoder gets wrong), and as RFC-valid variants with their expected value
 	switch prop {
-	case "C15":
-		for k := 0; k < kinds; k++ {
+	case "C15", "C02":
+		for k := 0; k < 4; k++ {
 			e.emit("xr-huge-block", op1("rt", packetSx(genHugeXR(r, k))))
 		}
 	case "C09":
-		for k := 0; k < kinds; k++ {
+		for k := 0; k < 4; k++ {
 			e.emit("xr-huge-block", op1("redec", sb(hugeXRBytes(r, k))))
 		}
-	case "C02":
-		for k := 0; k < kinds && tier == "thorough"; k++ {
-			e.emit("xr-huge-block", op1("rt", packetSx(genHugeXR(r, k))))
-		}
 	case "C03", "C05", "C08", "C10":
-		for k := 0; k < 2 && tier == "thorough"; k++ {
-			e.emit("xr-huge-block", op1("enc", packetSx(genHugeXR(r, r.intn(4)))))
+		for k := 0; k < 4; k++ {
+			e.emit("xr-huge-block", op1("enc", packetSx(genHugeXR(r, k))))
 		}
 	case "C04":
-		// RFC-valid encodings with a 64 KiB+ block and the value they must decode to (an unknown block type with 65 536+
-		// octets, a packet-receipt-times block): minutes of model time each, thorough tier only
-		for _, k := range []int{3, 0} {
-			if tier == "thorough" {
-				b, x := hugeXRVariant(r, k)
-				e.emit("xr-huge-variant", opVariant("ExtendedReport", b, x))
-			}
+		for k := 0; k < 4; k++ {
+			b, x := hugeXRVariant(r, k)
+			e.emit("xr-huge-variant", opVariant("ExtendedReport", b, x))
 		}
 	case "C01":
-		for k := 0; k < 2 && tier == "thorough"; k++ {
+		for k := 0; k < 4; k++ {
 			e.emit("xr-huge-block", opDec("ExtendedReport", hugeXRBytes(r, k)))
 		}
 	}
